@@ -18,6 +18,8 @@ struct Arch {
     path: PathBuf,
     /// names in listfile order (without special files)
     files: Vec<String>,
+    /// files that are in the archive but in no line of its (listfile): readable by name only
+    unlisted: Vec<String>,
     /// global file id of files[0]
     base: usize,
 }
@@ -41,7 +43,20 @@ impl Interner {
     }
 }
 
-fn build_archive(path: &Path, key: &str, seed: u64) -> Vec<String> {
+/// The spellings under which a name is requested: as listed, UPPER, lower, case-flipped, forward slashes.
+/// The MPQ name hash folds case and separators, so SeqRead answers all of them alike; the listing does not.
+fn spell(name: &str, how: &str) -> String {
+    match how {
+        "upper" => name.to_uppercase(),
+        "lower" => name.to_lowercase(),
+        "mixed" => name.chars().map(|c| if c.is_ascii_lowercase() { c.to_ascii_uppercase() } else { c.to_ascii_lowercase() }).collect(),
+        "fwd" => name.replace('\\', "/"),
+        _ => name.to_string(),
+    }
+}
+const SPELLINGS: [&str; 5] = ["listed", "upper", "lower", "mixed", "fwd"];
+
+fn build_archive(path: &Path, key: &str, seed: u64) -> (Vec<String>, Vec<String>) {
     let mut b = ArchiveBuilder::new();
     let mut names = Vec::new();
     let (count, shift) = match key {
@@ -71,8 +86,20 @@ fn build_archive(path: &Path, key: &str, seed: u64) -> Vec<String> {
         b = b.add_file_data_with_options(data, &name, comp, encrypt, 0);
         names.push(name);
     }
+    // S and E carry an external (listfile) that does not mention every tenth file
+    let mut unlisted = Vec::new();
+    if key == "S" || key == "E" {
+        let (listed, un): (Vec<(usize, String)>, Vec<(usize, String)>) = names.iter().cloned().enumerate().partition(|(i, _)| i % 10 != 9);
+        unlisted = un.into_iter().map(|(_, n)| n).collect();
+        names = listed.into_iter().map(|(_, n)| n).collect();
+        let lf = path.with_extension("listfile.txt");
+        let mut text = names.join("\r\n");
+        text.push_str("\r\n(listfile)\r\n");
+        std::fs::write(&lf, text).unwrap_or_else(|e| tool_error(&format!("write listfile: {e}")));
+        b = b.listfile_option(wow_mpq::ListfileOption::External(lf));
+    }
     b.build(path).unwrap_or_else(|e| tool_error(&format!("building {key}: {e}")));
-    names
+    (names, unlisted)
 }
 
 /// Generation g of the archive that lives at ONE path: other contents for every file, files with i % 5 == g are
@@ -107,23 +134,33 @@ fn build_world(dir: &Path, seed: u64, intern: &mut Interner) -> WorldX {
     let mut ids = HashMap::new();
     let mut seqtok: Vec<u32> = Vec::new();
     let mut seq_read = |path: &Path, key: &str, files: &[String], ids: &mut HashMap<(String, String), usize>, seqtok: &mut Vec<u32>| {
-        // THE sequential reference: one plain handle, one read_file after the other
+        // THE sequential reference: one plain handle, one read_file after the other -- under the EXACT string that
+        // will be requested: every spelling of a name is a request of its own with its own sequential answer
         let mut a = Archive::open(path).unwrap_or_else(|e| tool_error(&format!("open {key}: {e}")));
+        let spellings: &[&str] = if key == "L" { &SPELLINGS[..1] } else { &SPELLINGS[..] };
         for f in files {
-            let t = match guarded(|| a.read_file(f)) {
-                Outcome::Done(Ok(d)) => intern.id(&d),
-                _ => 0,
-            };
-            seqtok.push(t);
-            ids.insert((key.to_string(), f.clone()), seqtok.len());
+            for how in spellings {
+                let sp = spell(f, how);
+                if ids.contains_key(&(key.to_string(), sp.clone())) {
+                    continue;
+                }
+                let t = match guarded(|| a.read_file(&sp)) {
+                    Outcome::Done(Ok(d)) => intern.id(&d),
+                    _ => 0,
+                };
+                seqtok.push(t);
+                ids.insert((key.to_string(), sp), seqtok.len());
+            }
         }
     };
     for key in ["S", "E", "L"] {
         let path = dir.join(format!("{key}.mpq"));
-        let files = build_archive(&path, key, seed);
+        let (files, unlisted) = build_archive(&path, key, seed);
         let base = seqtok.len() + 1;
         seq_read(&path, key, &files, &mut ids, &mut seqtok);
-        arch.insert(key.to_string(), Arch { path, files, base });
+        seq_read(&path, key, &unlisted, &mut ids, &mut seqtok);
+        seq_read(&path, key, &["(listfile)".to_string()], &mut ids, &mut seqtok);
+        arch.insert(key.to_string(), Arch { path, files, unlisted, base });
     }
     // the generations of G: each is written to THE path, read sequentially there (the reference), then replaced
     let gpath = dir.join("G.mpq");
@@ -132,7 +169,8 @@ fn build_world(dir: &Path, seed: u64, intern: &mut Interner) -> WorldX {
         let key = format!("G{g}");
         let base = seqtok.len() + 1;
         seq_read(&gpath, &key, &files, &mut ids, &mut seqtok);
-        arch.insert(key, Arch { path: gpath.clone(), files, base });
+        seq_read(&gpath, &key, &["(listfile)".to_string()], &mut ids, &mut seqtok);
+        arch.insert(key, Arch { path: gpath.clone(), files, unlisted: Vec::new(), base });
     }
     let mut multi = Vec::new();
     for i in 0..6 {
@@ -240,6 +278,13 @@ fn request(w: &WorldX, c: &Value, key: &str, rng: &mut Rng) -> (Vec<String>, Vec
             }
         }
     }
+    // spelling class of the request (SeqRead is defined on the name hash, not on the listing)
+    match c.get("spell").and_then(|x| x.as_str()).unwrap_or("listed") {
+        "special" if n > 0 => names[0] = "(listfile)".to_string(),
+        "unlisted" if n > 0 && !a.unlisted.is_empty() => names[0] = a.unlisted[off % a.unlisted.len()].clone(),
+        how @ ("upper" | "lower" | "mixed" | "fwd") => names = names.iter().map(|s| spell(s, how)).collect(),
+        _ => {}
+    }
     let key = key.to_string();
     let ids = names.iter().map(|s| w.ids.get(&(key.clone(), s.clone())).copied().unwrap_or(0)).collect();
     (names, ids)
@@ -308,18 +353,32 @@ fn run_once(w: &WorldX, c: &Value, key: &str, names: &[String], intern: &std::sy
                 Ok((r.iter().map(|(n, _)| name_id(w, &key, n)).collect(), r.iter().map(|(_, t)| *t).collect()))
             }
             "multi" | "multi_many" => {
-                let paths: Vec<PathBuf> = names.iter().map(PathBuf::from).collect();
-                let back = |p: &Path| -> i64 {
-                    w.multi.iter().find(|(q, _)| q == p).map(|(_, id)| id.map(|x| x as i64).unwrap_or(0)).unwrap_or(-1)
+                // names = archive paths, "|", file names
+                let cut = names.iter().position(|s| s == "|").unwrap_or(names.len());
+                let paths: Vec<PathBuf> = names[..cut].iter().map(PathBuf::from).collect();
+                let fnames: Vec<&str> = names[(cut + 1).min(names.len())..].iter().map(|s| s.as_str()).collect();
+                let id_of = |p: &Path, f: &str| -> i64 {
+                    match w.multi.iter().position(|(q, _)| q == p) {
+                        Some(k) => w.ids.get(&(format!("M{k}"), f.to_string())).map(|&x| x as i64).unwrap_or(0),
+                        None => -1,
+                    }
                 };
                 if iface == "multi" {
-                    let r = in_pool(t, || wow_mpq::parallel::extract_from_multiple_archives(&paths, "common.txt")).map_err(|e| variant_name(&e))?;
-                    Ok((r.iter().map(|(p, _)| back(p)).collect(), r.iter().map(|(_, d)| tokid(d)).collect()))
+                    let r = in_pool(t, || wow_mpq::parallel::extract_from_multiple_archives(&paths, fnames[0])).map_err(|e| variant_name(&e))?;
+                    Ok((r.iter().map(|(p, _)| id_of(p, fnames[0])).collect(), r.iter().map(|(_, d)| tokid(d)).collect()))
                 } else {
-                    let r = in_pool(t, || wow_mpq::parallel::extract_multiple_from_multiple_archives(&paths, &["common.txt"]))
+                    let r = in_pool(t, || wow_mpq::parallel::extract_multiple_from_multiple_archives(&paths, &fnames))
                         .map_err(|e| variant_name(&e))?;
-                    Ok((r.iter().map(|(p, _)| back(p)).collect(),
-                        r.iter().map(|(_, fs)| if fs.len() == 1 && fs[0].0 == "common.txt" { tokid(&fs[0].1) } else { 0 }).collect()))
+                    // one slot per (archive, requested name), archives in argument order, names in request order
+                    let mut nm = Vec::new();
+                    let mut tk = Vec::new();
+                    for (p, files) in &r {
+                        for (f, d) in files {
+                            nm.push(id_of(p, f));
+                            tk.push(tokid(d));
+                        }
+                    }
+                    Ok((nm, tk))
                 }
             }
             "chain_par" | "chain_addpar" => {
@@ -409,12 +468,20 @@ fn main() {
             let mut rng = Rng::derive(seed, &format!("c09-case-{ci}"));
             let (names, ids): (Vec<String>, Vec<usize>) = match iface {
                 "multi" | "multi_many" => {
+                    // n archives of M0..M4 in seeded order (dup = "adj": the same archive twice; miss: M5, which lacks
+                    // the shared file, at that position); file names: the shared file under the spelling class
+                    // (multi_many: b names -- distinct spellings, or with dup = "adj" the SAME string repeated, or with
+                    // miss = "all" one name that no archive has)
                     let n = gi(c, "n") as usize;
                     let mut order: Vec<usize> = (0..5).collect();
                     for i in (1..5).rev() {
                         order.swap(i, rng.below(i as u64 + 1) as usize);
                     }
                     let mut sel: Vec<usize> = order.into_iter().take(n).collect();
+                    let dup = gs(c, "dup");
+                    if dup == "adj" && iface == "multi" && n >= 2 {
+                        sel[1] = sel[0];
+                    }
                     let pos = match gs(c, "miss") {
                         "first" => Some(0),
                         "middle" => Some(n / 2),
@@ -424,8 +491,28 @@ fn main() {
                     if let (Some(p), true) = (pos, n > 0) {
                         sel[p] = 5; // the archive without common.txt
                     }
-                    (sel.iter().map(|&i| w.multi[i].0.to_string_lossy().to_string()).collect(),
-                     sel.iter().map(|&i| w.multi[i].1.unwrap_or(0)).collect())
+                    let how = c.get("spell").and_then(|x| x.as_str()).unwrap_or("listed");
+                    let fnames: Vec<String> = if iface == "multi" {
+                        vec![spell("common.txt", how)]
+                    } else {
+                        let b = (gi(c, "b") as usize).max(1);
+                        let mut v: Vec<String> =
+                            (0..b).map(|i| if dup == "adj" { spell("common.txt", how) } else { spell("common.txt", SPELLINGS[(i + SPELLINGS.iter().position(|x| *x == how).unwrap_or(0)) % 5]) }).collect();
+                        if gs(c, "miss") == "all" {
+                            v[b / 2] = "nothere.txt".to_string();
+                        }
+                        v
+                    };
+                    let mut names: Vec<String> = sel.iter().map(|&i| w.multi[i].0.to_string_lossy().to_string()).collect();
+                    names.push("|".to_string());
+                    names.extend(fnames.iter().cloned());
+                    let mut ids = Vec::new();
+                    for &k in &sel {
+                        for f in &fnames {
+                            ids.push(w.ids.get(&(format!("M{k}"), f.clone())).copied().unwrap_or(0));
+                        }
+                    }
+                    (names, ids)
                 }
                 "chain_par" | "chain_addpar" => {
                     // argument list: n of the M archives in seeded order, priorities by pattern b
@@ -492,7 +579,7 @@ fn main() {
                     Err(_) => Obs { call: "hang".into(), names: vec![], toks: vec![] },
                 };
                 trace.ev(json!({"ev":"Par","case":case,"iface":iface,"arch":gs(c,"arch"),"t":gi(c,"t"),"b":gi(c,"b"),
-                    "n":gi(c,"n"),"skip":gb(c,"skip"),"miss":gs(c,"miss"),"dup":gs(c,"dup"),"run":run,"gen":0,
+                    "n":gi(c,"n"),"skip":gb(c,"skip"),"miss":gs(c,"miss"),"dup":gs(c,"dup"),"spell":c.get("spell").and_then(|x| x.as_str()).unwrap_or("listed"),"run":run,"gen":0,
                     "req":chunked(&ids),"call":o.call,"names":chunked(&o.names),"toks":chunked(&o.toks)}));
                 since += 1;
                 if o.call == "hang" {
@@ -531,7 +618,7 @@ fn main() {
                             _ => Obs { call: "panic".into(), names: vec![], toks: vec![] },
                         };
                         trace.ev(json!({"ev":"Par","case":case,"iface":iface,"arch":"G","t":gi(c,"t"),"b":gi(c,"b"),
-                            "n":gi(c,"n"),"skip":gb(c,"skip"),"miss":gs(c,"miss"),"dup":gs(c,"dup"),"run":run,"gen":round,
+                            "n":gi(c,"n"),"skip":gb(c,"skip"),"miss":gs(c,"miss"),"dup":gs(c,"dup"),"spell":"listed","run":run,"gen":round,
                             "req":chunked(&ids),"call":o.call,"names":chunked(&o.names),"toks":chunked(&o.toks)}));
                     }
                 }
